@@ -195,3 +195,9 @@ def cex_c10(obl, results, env):
         return _first_fail(validate.admission_scenarios(env))
     except driver.Undecided:
         return None
+
+
+def cex_c06(obl, results, env):
+    if 'imeout' in obl['id']:
+        return cex_c11(obl, results, env)
+    return cex_c07(obl, results, env)
